@@ -172,8 +172,17 @@ def s_requires_inline_call(ctx):
     has_default = ctx.choose(2, "has default domain") == 0
     fallback = [False, True, None][ctx.choose(3, "fallback")]
     graph = SObj(ir.Graph, "graph")
-    inputs = [Opaque("in0")]
-    graph.fields.update(opset_imports=({"": s} if has_default else {}), initializers={}, inputs=inputs)
+
+    def val(name, const=None):
+        v = SObj(ir.Value, name)
+        v.fields.update(name=name, const_value=const)
+        return v
+    # interface: x is a plain input; w may be an initializer that is ALSO a graph input (overridable default);
+    # c is a plain initializer
+    w_is_input = ctx.choose(2, "an initializer is also a graph input") == 1
+    x0, w0, c0 = val("x"), val("w", "W-data"), val("c", "C-data")
+    inputs = [x0] + ([w0] if w_is_input else [])
+    graph.fields.update(opset_imports=({"": s} if has_default else {}), initializers={"w": w0, "c": c0}, inputs=inputs)
     model = SObj(ir.Model, "model")
     model.fields.update(graph=graph)
     calls = []
@@ -189,10 +198,16 @@ def s_requires_inline_call(ctx):
     newgraph = SObj(ir.Graph, "converted_graph")
     new_inputs = []
 
-    class Inputs(list):
-        pass
-    ni = Inputs()
-    newgraph.fields.update(inputs=ni, register_initializer=lambda v: None)
+    # contract of call_onnx_api + from_proto: the converted graph lists the user inputs first, then the initializers
+    # that were handed to the C API as extra inputs (values without data)
+    conv_vals = [val("x")] + ([val("w")] if w_is_input else []) + ([] if w_is_input else [val("w")]) + [val("c")]
+    ni = list(conv_vals)
+    registered = []
+
+    def reg(v):
+        raise AssertionError
+    I.models[reg] = lambda interp, v: registered.append(v)
+    newgraph.fields.update(inputs=ni, register_initializer=reg)
     cm = SObj(ir.Model, "converted_model")
     cm.fields.update(graph=newgraph)
     I.models[ir.from_proto] = lambda interp, p: cm
@@ -216,6 +231,11 @@ def s_requires_inline_call(ctx):
                   model.fields["graph"] is graph_before and _modified(r) is False, CL_HALF)
     else:
         ctx.check("C10.pass.successful_fallback_installs_converted_graph", model.fields["graph"] is newgraph, CL)
+        final = newgraph.fields["inputs"]
+        ctx.check("C10.pass.fallback_keeps_exactly_the_graph_inputs_of_the_model", [v.fields["name"] for v in final] == [v.fields["name"] for v in inputs],
+                  "C10: 'has the same inputs and outputs' — an initializer that is also a graph input stays a graph input")
+        ctx.check("C10.pass.fallback_recovers_every_initializer_with_its_data", sorted(v.fields["name"] for v in registered) == ["c", "w"] and
+                  all(v.fields["const_value"] == {"w": "W-data", "c": "C-data"}[v.fields["name"]] for v in registered), CL)
 
 
 def _modified(r):
